@@ -25,7 +25,7 @@ TECHNIQUE = ("Lean 4: invariant proof over countNode histories (any isNodeAfter 
              "to the XSLT 1.0 section 7.7 specification, round-trip proofs for the formatters over tables regenerated from the "
              "source; two translators (tables, code-shape facts and flags); lock-step correspondence of generated stylesheets "
              "numbering every node (attributes included) in several histories, next to the defining count() expression")
-LEVEL_TEXT = ("Machine-checked (20 theorems, axioms propext/Classical.choice/Quot.sound): (a) for every history of "
+LEVEL_TEXT = ("Machine-checked (25 theorems, axioms propext/Classical.choice/Quot.sound): (a) for every history of "
               "CountersTable::countNode calls and every isNodeAfter oracle the cached answer equals the from-scratch "
               "getPreviousNode chain length; (b) for every well-formed document, every instruction (level single/multiple/any, "
               "explicit or default count, with or without from), every history, the transcribed navigation + cache prints the "
@@ -41,13 +41,13 @@ LEVEL_TEXT = ("Machine-checked (20 theorems, axioms propext/Classical.choice/Quo
               "integers, non-integral / negative / special / >64-bit values, grouping attribute edge cases, Greek alphabetic.")
 LEVEL_NOTE = ("Trusted: Lean kernel; the three standard axioms; translate/c17_tables.py, translate/c17_navshape.py and translate/c17_patterncache.py; the hand "
               "transcription of ElemNumber.cpp / CountersTable.cpp / XalanNumberFormat.cpp (validated by the correspondence runs, "
-              "bounded by generator coverage); Doc.WF is evaluated per generated document, not proved for Doc.ofParents in general. "
+              "bounded by generator coverage). Well-formedness of documents is a theorem (forest_doc_wf: the driver flattens an inductive forest); the driver only checks that a request is a document-order parent list. "
               "Abstract: XPath pattern matching (a predicate, evaluated by the generator for a closed pattern family and independently "
               "by the count() expression of the same run), isXMLLetterOrDigit (a predicate; ASCII + a few letters in the driver), "
               "isNodeAfter (arbitrary). Modelled with correspondence but without theorems: attribute nodes as context/counted nodes, "
-              "value= rounding and range, Greek alphabetic numbering. Not modelled: letter-value=traditional (XalanNumberingResourceBundle), "
-              "NumberToDOMString(double) for values that bypass formatting, namespace nodes (two direct tests). Known finding: default "
-              "count on a namespace node (the earlier findings are fixed in /repo).")
+              "value= rounding and range, Greek alphabetic numbering. Not modelled: "
+              "NumberToDOMString(double) for values that bypass formatting, namespace nodes (two direct tests). Known findings: default "
+              "count on a namespace node (patch proposed), traditional Greek numbering of 10000 and more (digits dropped).")
 DESIGN_REF = "DESIGN.md section 5, C17; design/C17.md"
 
 THEOREMS = [
@@ -55,6 +55,9 @@ THEOREMS = [
     "XalanModel.Props.C17.counters_history_independent",
     "XalanModel.Props.C17.counters_history_answers",
     "XalanModel.Props.C17.getPreviousNode_decreases",
+    "XalanModel.Props.C17.forest_doc_wf",
+    "XalanModel.Props.C17.number_spec_forest",
+    "XalanModel.Props.C17.getPreviousNode_decreases_forest",
     "XalanModel.Props.C17.number_spec_general",
     "XalanModel.Props.C17.number_spec_partial",
     "XalanModel.Props.C17.number_spec_full",
@@ -64,6 +67,8 @@ THEOREMS = [
     "XalanModel.Props.C17.default_count_pattern_not_cached",
     "XalanModel.Props.C17.alpha_roundtrip",
     "XalanModel.Props.C17.alpha_no_overflow",
+    "XalanModel.Props.C17.traditional_roundtrip_partial",
+    "XalanModel.Props.C17.traditional_collision_counterexample",
     "XalanModel.Props.C17.roman_roundtrip",
     "XalanModel.Props.C17.roman_out_of_range",
     "XalanModel.Props.C17.decimal_roundtrip",
@@ -788,7 +793,61 @@ def greek_stream(ctx, r, harness, model):
             n = n * radix + (radix if i == 0 else i)
         if not good or n != v:
             ctx.fail("number.format.roundtrip[greek-alphabetic]: value=%d" % v, "printed %r which decodes to %s" % (sgot, n if good else None), {"value": v})
-    ctx.oblige("correspondence: Greek alphabetic numbering (letter-value=alphabetic) and ignored lang attribute = Lean model", "correspondence", ok,
+    # letter-value="traditional": traditionalAlphaCount over the bundle the translator read from the source
+    mb = re.search(r"def elalphaBundle : NumberingBundle :=\s*\{ groups := \[([^\]]*)\], tables := \[([^\]]*)\], multipliers := \[([^\]]*)\], "
+                   r"multiplierChars := \[([^\]]*)\],\s*digitsTable := \[(.*?)\]\],", gen, flags=re.S)
+    if mb:
+        ints = lambda t: [int(x) for x in t.split(",") if x.strip()]
+        groups, tabs, mults, mchars = ints(mb.group(1)), ints(mb.group(2)), ints(mb.group(3)), ints(mb.group(4))
+        dtab = [ints(t.strip("[] ")) for t in mb.group(5).split("],")]
+        letter = {}
+        for g_, t_ in zip(groups, tabs):
+            for i_, ch_ in enumerate(dtab[t_]):
+                letter.setdefault(ch_, (i_ + 1) * g_)
+
+        def dec_trad(sv):
+            tot, pend = 0, None
+            for ch in sv:
+                o = ord(ch)
+                if pend is not None:
+                    if o not in letter:
+                        return None
+                    tot += pend * letter[o]
+                    pend = None
+                elif o in mchars:
+                    pend = mults[mchars.index(o)]
+                elif o in letter:
+                    tot += letter[o]
+                else:
+                    return None
+            return tot if pend is None else None
+        tvals = [1, 9, 10, 99, 100, 200, 999, 1000, 1001, 5555, 9999, 10000, 11000, 20000, 23000, 999999, 1000000] + \
+                [r.range(1, 9999) for _ in range(150)] + [r.range(10000, 2000000) for _ in range(20)]
+        tb = "".join('<xsl:number value="%d" format="&#x3B1;" letter-value="traditional"/><xsl:text>&#10;</xsl:text>' % v for v in tvals)
+        txsl = ('<xsl:stylesheet version="1.0" xmlns:xsl="http://www.w3.org/1999/XSL/Transform"><xsl:output method="text" encoding="UTF-8"/>'
+                '<xsl:template match="/">%s</xsl:template></xsl:stylesheet>' % tb)
+        tres = run_impl(harness, [("<r/>", [txsl])], 1)[0][0]
+        tm, _, _ = run_model(model, ["lv 2"] + ["val 03b1 - - %d" % v for v in tvals], "trad")
+        if tres[0] != "out" or len(tm) != len(tvals) + 1:
+            ok = False
+        else:
+            tgot = tres[1].split("\n")[:len(tvals)]
+            twant = [G.from_units(x) for x in tm[1:]]
+            if tgot != twant:
+                ok = False
+            seen_str = {}
+            for v, sv in zip(tvals, tgot):
+                ctx.case(nontrivial_key=("trad", v), cls="format:greek-traditional")
+                d = dec_trad(sv)
+                if d != v:
+                    cls_ = "beyond-9999" if v > 9999 else "unclassified"
+                    other = seen_str.get(sv)
+                    ctx.fail("number.format.roundtrip[greek-traditional,%s]: value=%d" % (cls_, v),
+                             "printed %r which reads back as %s%s" % (sv, d, (" (value %d printed the same string)" % other) if other else ""), {"value": v})
+                seen_str.setdefault(sv, v)
+    else:
+        ok = False
+    ctx.oblige("correspondence: Greek numbering (letter-value=alphabetic and traditional) and ignored lang attribute = Lean model", "correspondence", ok,
                str([(v, a, b) for v, a, b in zip(vals + [1999, 28], got, want) if a != b][:3]))
 
 
